@@ -105,7 +105,7 @@ def _case(draw, tier):
     assign = [draw(st.integers(0, ntests - 1)) for _ in frags]
     return {"frags": frags, "assign": assign, "F": draw(flag_sets()),
             # line endings of the file: unix, dos, or both kinds in one file
-            "eol": draw(st.sampled_from(["lf", "lf", "lf", "crlf", "mixed", "mixed"])),
+            "eol": draw(st.sampled_from(["lf", "lf", "lf", "crlf", "mixed", "mixed", "cr"])),
             # (real sessions) where pytest is started: in the project, in its parent or in a sibling directory
             "cwd": draw(st.sampled_from(["project", "project", "parent", "sibling"]))}
 
@@ -187,6 +187,8 @@ def render(case):
     eol = case.get("eol", "lf")
     if eol == "crlf":
         text = text.replace("\n", "\r\n")
+    elif eol == "cr":
+        text = text.replace("\n", "\r")
     elif eol == "mixed":
         lines = text.split("\n")
         text = "".join(l + ("\r\n" if i % 3 == 0 else "\n") for i, l in enumerate(lines[:-1])) + lines[-1]
